@@ -62,6 +62,9 @@ type tyInfo struct {
 // structs) the library itself stores in them.  Other implementors a caller might supply are outside the model.
 var ifaceSums = map[string][]string{
 	"PacketStatusChunk": {"RunLengthChunk", "StatusVectorChunk"},
+	// the block types ExtendedReport.Unmarshal creates
+	"ReportBlock": {"LossRLEReportBlock", "DuplicateRLEReportBlock", "PacketReceiptTimesReportBlock", "ReceiverReferenceTimeReportBlock",
+		"DLRRReportBlock", "StatisticsSummaryReportBlock", "VoIPMetricsReportBlock", "UnknownReportBlock"},
 	// the packet types the datagram decoder creates (CompoundPacket, itself a []Packet, is not a member: lists handed to
 	// rtcp.Marshal that contain compound packets are outside the translated fragment)
 	"Packet": {"SenderReport", "ReceiverReport", "SourceDescription", "Goodbye", "ApplicationDefined", "TransportLayerNack",
@@ -76,6 +79,12 @@ var ifaceSums = map[string][]string{
 // an extra parameter of the translated function (the equivalence lemma instantiates it with the model's value).
 // wireSize is the reflection-driven size computation of packet_buffer.go.
 var oracleFuncs = map[string]bool{"wireSize": true}
+
+// oracleMethods: methods outside the fragment (reflection) whose EFFECT enters a translated function. A call
+// `recv.m(&lv)` / `recv.m(v)` becomes a call of a function-valued oracle `o_m_T` (T the static type of the pointee or the
+// value), a Section variable of the generated module: it takes the receiver and the current value and returns the updated
+// receiver and value, or an error. The equivalence proofs instantiate the oracles with the reflection model (Lib/Reflect.v).
+var oracleMethods = map[string]bool{"packetBuffer.read": true}
 
 var opaqueTypes = map[string]bool{"ExtendedReport": true, "ReceiverEstimatedMaximumBitrate": true}
 
@@ -94,6 +103,8 @@ var fuelHints = map[string]string{
 	"ReceiverEstimatedMaximumBitrate.Unmarshal|(mantissa & (mantissamax + 1)) == 0": "24%nat",
 	// bitrate is a finite float32 (<= 0x3FFFFp+63 after the clamp) that is halved until it is below 2^18
 	"ReceiverEstimatedMaximumBitrate.MarshalTo|bitrate >= (1 << 18)": "200%nat",
+	// every iteration returns or splits at least one octet (a block length is at least 4) off a non-empty buffer
+	"ExtendedReport.Unmarshal|len(buffer.bytes) > 0": "(S (Z.to_nat (glen $b)))",
 }
 
 func classify(t types.Type) tyInfo {
@@ -217,6 +228,7 @@ type fnSig struct {
 	hasErr   bool
 	nres     int   // non-error results
 	cbIdx    int   // index of the callback parameter + 1, 0 = none
+	oracleM  bool  // a method of oracleMethods
 	inout    []int // indices (in the flattened parameter list) of byte-slice parameters the function writes: returned after the receiver
 	resTy    []tyInfo
 }
@@ -236,6 +248,8 @@ type translator struct {
 	lifted       []string
 	liftN        int
 	mutates      map[string]int // 0 unknown, 1 no, 2 yes, 3 in progress
+	mOracles     []string       // function-valued oracles: "name : type" in order of first use
+	mOracleSeen  map[string]bool
 }
 
 func funcKey(fd *ast.FuncDecl) string {
@@ -707,6 +721,9 @@ func (c *ctx) callee(call *ast.CallExpr) (*fnSig, ast.Expr) {
 				name = namedName(c.t.l.info.TypeOf(f.X))
 			}
 			key := name + "." + f.Sel.Name
+			if oracleMethods[key] {
+				return &fnSig{key: key, coq: "o_" + f.Sel.Name, hasErr: true, ptrRecv: true, hasRecv: true, oracleM: true}, f.X
+			}
 			if s, ok := c.t.sigs[key]; ok {
 				return s, f.X
 			}
@@ -729,6 +746,7 @@ func (t *translator) ifaceDispatch(n ast.Node, iface, method string) *fnSig {
 		sg *fnSig
 	}
 	var arms []armT
+	anyPtr := false
 	for _, m := range ifaceSums[iface] {
 		sg, ok := t.sigs[m+"."+method]
 		if !ok {
@@ -736,9 +754,10 @@ func (t *translator) ifaceDispatch(n ast.Node, iface, method string) *fnSig {
 		}
 		if first == nil {
 			first = sg
-		} else if first.hasErr != sg.hasErr || first.nres != sg.nres || first.ptrRecv != sg.ptrRecv {
+		} else if first.hasErr != sg.hasErr || first.nres != sg.nres || (first.ptrRecv != sg.ptrRecv && (sg.nres != 0 || sg.hasErr)) {
 			t.fail(n, "methods %s of the members of %s have different shapes", method, iface)
 		}
+		anyPtr = anyPtr || sg.ptrRecv
 		if sg.ptrRecv && sg.nres != 0 {
 			t.fail(n, "%s.%s updates its receiver and returns values", m, method)
 		}
@@ -771,14 +790,22 @@ func (t *translator) ifaceDispatch(n ast.Node, iface, method string) *fnSig {
 	for _, a := range arms {
 		call := fmt.Sprintf("%s a%s", a.sg.coq, argstr)
 		switch {
+		case a.sg.ptrRecv && a.sg.pure:
+			call = fmt.Sprintf("Ok (%s_%s (%s))", iface, a.m, call)
 		case a.sg.ptrRecv:
 			call = fmt.Sprintf("res_map %s_%s (%s)", iface, a.m, call)
+		case anyPtr && a.sg.pure:
+			// this member's method does not write its receiver (others do): the value is unchanged
+			call = fmt.Sprintf("Ok (%s_%s a)", iface, a.m)
+		case anyPtr:
+			call = fmt.Sprintf("res_map (fun _ => %s_%s a) (%s)", iface, a.m, call)
 		case a.sg.pure:
 			call = "Ok (" + call + ")"
 		}
 		fmt.Fprintf(&body, "  | %s_%s a => %s\n", iface, a.m, call)
 	}
 	sig := *first
+	sig.ptrRecv = anyPtr
 	sig.key = iface + "." + method
 	sig.coq = iface + "_" + method
 	sig.recvTy = iface
@@ -1535,6 +1562,9 @@ var assignOps = map[token.Token]token.Token{
 // on its result; okK continues with the names bound to the non-error results, errK with the error outcome.
 func (c *ctx) matchCall(call *ast.CallExpr, sig *fnSig, recv ast.Expr, okK func(d *ctx, names []string) string, errK func(d *ctx) string) string {
 	c.t.usedMono = true
+	if sig.oracleM {
+		return c.matchOracleMethod(call, sig, recv, okK, errK)
+	}
 	argstr := c.args(call, recv)
 	binds := c.take()
 	var pat, names []string
@@ -1599,6 +1629,69 @@ func (c *ctx) matchCall(call *ast.CallExpr, sig *fnSig, recv ast.Expr, okK func(
 	} else {
 		b.WriteString(ind(c.depth) + "| Err => Err\n")
 	}
+	b.WriteString(ind(c.depth) + "| Panic => Panic\n")
+	b.WriteString(ind(c.depth) + "| Fuel => Fuel\n")
+	b.WriteString(ind(c.depth) + "end\n")
+	return wrap(binds, b.String(), c.depth)
+}
+
+// matchOracleMethod: `recv.m(&lv)` or `recv.m(v)` with m in oracleMethods (see there)
+func (c *ctx) matchOracleMethod(call *ast.CallExpr, sig *fnSig, recv ast.Expr, okK func(d *ctx, names []string) string, errK func(d *ctx) string) string {
+	if len(call.Args) != 1 {
+		c.t.fail(call, "oracle method with %d arguments", len(call.Args))
+	}
+	lv := call.Args[0]
+	if u, ok := lv.(*ast.UnaryExpr); ok && u.Op == token.AND {
+		lv = u.X
+	}
+	ti := c.typeOf(lv)
+	var tag string
+	switch ti.k {
+	case kUint:
+		tag = fmt.Sprintf("uint%d", ti.width)
+	case kStruct, kIface:
+		tag = ti.name
+		if ti.k == kStruct {
+			c.t.needStruct(ti.name)
+		} else {
+			c.t.needIface(ti.name)
+		}
+	default:
+		c.t.fail(call, "oracle method on a value of this type")
+	}
+	rti := c.typeOf(recv)
+	if rti.k != kStruct {
+		c.t.fail(call, "oracle method on a receiver that is not a struct")
+	}
+	name := sig.coq + "_" + tag
+	if c.t.mOracleSeen == nil {
+		c.t.mOracleSeen = map[string]bool{}
+	}
+	if !c.t.mOracleSeen[name] {
+		c.t.mOracleSeen[name] = true
+		c.t.mOracles = append(c.t.mOracles, fmt.Sprintf("%s : %s -> %s -> res (%s * %s)", name, rti.name, coqTy(ti), rti.name, coqTy(ti)))
+	}
+	cur := c.expr(lv)
+	rcv := c.expr(recv)
+	binds := c.take()
+	rt, vt := c.tmp(), c.tmp()
+	var b strings.Builder
+	b.WriteString(ind(c.depth) + fmt.Sprintf("match %s %s %s with\n", name, rcv, cur))
+	b.WriteString(ind(c.depth) + fmt.Sprintf("| Ok (%s, %s) =>\n", rt, vt))
+	d := c.clone()
+	d.depth = c.depth + 1
+	b.WriteString(d.assignTo(recv, rt, func(d2 *ctx) string {
+		return d2.assignTo(lv, vt, func(d3 *ctx) string { return okK(d3, nil) })
+	}))
+	e := c.clone()
+	e.depth = c.depth + 1
+	for _, x := range []ast.Expr{recv, lv} {
+		if id := e.rootIdent(x); id != nil {
+			e.poison[e.objOf(id)] = true
+		}
+	}
+	b.WriteString(ind(c.depth) + "| Err =>\n")
+	b.WriteString(errK(e))
 	b.WriteString(ind(c.depth) + "| Panic => Panic\n")
 	b.WriteString(ind(c.depth) + "| Fuel => Fuel\n")
 	b.WriteString(ind(c.depth) + "end\n")
@@ -3556,8 +3649,21 @@ func genFuncsMod(l *loaded, want []string, mod, suffix string) []byte {
 	b.WriteString("(* Functions of the package rendered as Gallina by srcgen/trans.go (see Lib/GoSem.v for the semantics of the\n   primitives).  Equivalence with the hand-written model is proved in Proofs/SourceEquiv.v. *)\n")
 	b.WriteString("From Coq Require Import List ZArith Bool String.\nFrom RTCP Require Import Lib.Base Lib.Sval Lib.GoSem Lib.GoFloat Check.GoOpaque.\nImport ListNotations.\nLocal Open Scope Z_scope.\n\nModule " + mod + ".\n\n")
 	t.emitStructs(&b)
+	if len(t.mOracles) > 0 {
+		// function-valued oracles (oracleMethods): Section variables; after the section every function that uses one takes
+		// it as a leading argument
+		b.WriteString("Section MethodOracles.\n")
+		for _, o := range t.mOracles {
+			b.WriteString("Variable " + o + ".\n")
+		}
+		b.WriteString("\n")
+	}
 	b.Write(t.body.Bytes())
-	t.emitCodecs(&b)
+	if len(t.mOracles) > 0 {
+		b.WriteString("End MethodOracles.\n\n")
+	} else {
+		t.emitCodecs(&b)
+	}
 	b.WriteString("End " + mod + ".\n\n")
 	sort.Strings(t.emitted)
 	b.WriteString("Definition translated_functions" + suffix + " : list string := [")
